@@ -262,7 +262,7 @@ def _impl_one(case):
 # the property's oracle, on the real before / after files
 # ------------------------------------------------------------------------------------------------
 DEF_KINDS = ("FunctionDefinitionStart", "ClassDefinitionStart")
-PRIORITY = ["unaligned", "wrong-open-paren+stray-arrow", "stray-arrow", "wrong-open-paren", "node-spans-two-definitions", "header-node-has-tail", "docstring-node-overlong", "same-line-tail", "indent-sample-not-statement", "indent-under-4", "docstring-not-triple-quoted", "escape-in-docstring",
+PRIORITY = ["unaligned", "wrong-open-paren+stray-arrow", "stray-arrow", "wrong-open-paren", "node-spans-two-definitions", "header-node-has-tail", "new-annotation-unparsable", "docstring-node-overlong", "same-line-tail", "indent-sample-not-statement", "indent-under-4", "docstring-not-triple-quoted", "escape-in-docstring",
             "triple-quote-in-docstring", "header-last-node", "empty-docstring-removed", "async-docstring-removed", "header-resynth",
             "docstring-removed", "return-type-changed"]
 
@@ -452,6 +452,14 @@ def _overlong(value: str) -> bool:
     return q in ('"' * 3, "'" * 3) and value.count(q) > 2
 
 
+def _header_parses(v: str) -> bool:
+    try:
+        ast.parse("\n".join(map(str.lstrip, v.split("\n"))).replace("    ", "", 1) + " pass")
+        return True
+    except (SyntaxError, ValueError):
+        return False
+
+
 def _wrong_open_paren(v: str) -> bool:
     """Does `value.find("(", function_name_starts_at)` miss the parenthesis that opens the parameter list?  (It does when `def` is
     preceded by neither a blank nor `)` — a tab, a newline — and something before it, e.g. a decorator, has a parenthesis.)"""
@@ -536,6 +544,10 @@ def align(nb, na, parses):
                 # the scanner does not flush a decorated one-line stub at the end of the file: the header node also holds the body
                 # (`... # stub`), which `remove_return_typ` / the argument surgery cut or duplicate
                 fl.append("header-node-has-tail")
+            if not fl and _header_parses(x["value"]) and not _header_parses(y["value"]):
+                # the slices are where they should be, yet the rebuilt header is no header: an annotation taken over from the docstring
+                # (`:type K: *Union[int, str]`) is not an expression that may stand there
+                fl.append("new-annotation-unparsable")
             bp, ap = x["value"][: max(x["value"].rfind(")"), 0)], y["value"][: max(y["value"].rfind(")"), 0)]
             fl.append("header-resynth" if bp != ap else "return-type-changed")
             s, e = span(y)
@@ -893,6 +905,8 @@ WITNESSES = [
      ("google", False, None), None),
     ("w-decorated-stub-at-eof", ["C07-header-node-has-tail", "C07-header-node-has-tail-any"],
      "@dec()\nclass C3(object):\n    @dec\n    def step(self,\n             bar_baz) -> int: ...  # stub", ("google", False, None), None),
+    ("w-starred-docstring-type", ["C07-docstring-type-not-annotation"],
+     'def f(K):\n    """\n    Doc.\n\n    :param K: the k\n    :type K: ```*Union[int, str]```\n    """\n    return K\n', ("rest", True, None), "def f(K: *Union[int, str]) -> str:"),
     ("w-stub-atomic", [], "def s(a): ...\n\ndef h(a):\n" + REST_DOC + "    return a\n", ("rest", True, None), None),
 ]
 
